@@ -3,13 +3,14 @@
 (* Width-8 CRCs, every reflected polynomial with the x^0 term: table-driven *)
 (* = bitwise on all 1- and 2-byte data, backward o forward = identity on    *)
 (* all (register, byte) pairs; CRC-32 forging postcondition reachable for   *)
-(* every target of a sample and every position.                             *)
+(* every target of a sample and every position.  Run-length evaluation by   *)
+(* affine powers (Crc!CrcRegRuns, used for megabyte inputs) = bytewise.     *)
 (***************************************************************************)
 EXTENDS Crc, Integers, TLC
 CONSTANT Polys
 VARIABLES p, b1, phase
-Init == p \in Polys /\ b1 = 0 /\ phase = 0
-Next == phase = 0 /\ phase' = 1 /\ b1' \in 0..255 /\ UNCHANGED p
+Init == p \in Polys /\ b1 \in {16 * k : k \in 0..15} /\ phase = 0          \* 16 groups per polynomial: successors are generated (and judged) by
+Next == phase = 0 /\ phase' = 1 /\ b1' \in b1..(b1 + 15) /\ UNCHANGED p      \* the worker that owns the group, so all workers share the load
 P8 == <<p>>
 AllPolys == 128..255
 Width8 == phase = 1 =>
@@ -24,4 +25,14 @@ Forge == phase = 1 /\ p = 140 =>       \* once per b1: CRC-32 patch at every pos
   LET data == <<b1, 1, 2, 3, 250, 251, 252, (b1 * 7) % 256>>
       target == W32((b1 * 257) % 65536, (b1 * 263 + 5) % 65536) IN
   \A pos \in 0..4 : FixOk(data, Crc32Patch(data, pos, target), pos, target)
+\* run-length evaluation (affine powers) = byte-by-byte evaluation, every polynomial of the configuration x every byte value,
+\* run lengths on both sides of the switch-over (12) and beyond a power of two; and for CRC-32 with the table-driven Crc32
+RunsThm == phase = 1 =>
+  LET M8 == CrcByteStepLin(P8) IN
+  \A n \in {0, 12, 13, 14 + (b1 % 90)} :                      \* b1 sweeps 0..255: run lengths 14..103, registers 0..255
+     LET runs == <<<<b1, n>>, <<p, 13>>, <<255 - b1, 2>>>> IN
+     /\ CrcRegRunsR(P8, M8, runs, 1, <<b1>>) = CrcRegBitwise(P8, RunsExpand(runs), <<b1>>)
+     /\ RunsLen(runs) = Len(RunsExpand(runs))
+RunsThm32 == phase = 1 /\ p = 140 /\ (b1 % 4 = 0 \/ Polys = AllPolys) =>
+  LET runs == <<<<b1, 13 + b1>>, <<1, 1>>, <<(b1 * 5) % 256, 300>>, <<7, 12>>>> IN Crc32Runs(runs) = Crc32(RunsExpand(runs))
 =============================================================================
